@@ -19,7 +19,10 @@ RULE = ("hist: one real Process over a fake /proc driven by random sequences of 
         "calling plain methods plus a thread changing the sources, run under explicit line-level schedules (random segments, "
         "directed pre-emption patterns, and in thorough an enumeration of up to 3 pre-emption points); asdict: attrs None / "
         "non-collections / lists, tuples, sets with duplicates and unknown names, sources available / denied / gone, stubbed "
-        "methods raising AccessDenied / ZombieProcess / NoSuchProcess / NotImplementedError, inside and outside a block. "
+        "methods raising AccessDenied / ZombieProcess / NoSuchProcess / NotImplementedError, inside and outside a block; asdict_any: "
+        "attrs collections whose elements are arbitrary hashable values (str, int, None, bool, bytes, float, NaN, tuples, instances "
+        "with unusual __lt__/__repr__/__hash__, a str subclass), 1-6 unacceptable ones mixed with valid names and duplicates, in "
+        "list/tuple/set/frozenset, through Process.as_dict and through process_iter(attrs=...). "
         "Non-trivial = contains at least one method call; distinct = distinct canonical case hash.")
 TRUSTED = ["correspondence harness props/C16.py, props/_c16_sched.py (sys.settrace line scheduler), pv/ (fake /proc)",
            "read counting by wrapping psutil._pslinux.bcat/open_binary and attributing by calling frame",
@@ -287,7 +290,79 @@ def gen_cases(rng, tier):
             if c["attrs"] is not None and c["attrs"][0] != "notcoll":
                 c["order"] = next(it)
         cases += ad
+        cases += _gen_any(rng, {"quick": 80, "thorough": 1500, "search": 400}[tier], d["all"])
     return cases
+
+
+# ------------------------------------------------------------------ attrs with elements of any (hashable) type
+ODD_STR = ["nope", "oneshot", "kill", "as_dict", "", "Name", "_pid", "foo", "bar", "a b", "n\u00e4me", "{}", "%s"]
+OBJ_KINDS = ["plain", "lt_raises", "repr_odd", "hash_zero", "hash_like_name", "str_subclass_odd"]
+
+
+def _odd_atom(rng):
+    k = rng.randrange(10)
+    if k == 0:
+        return ["s", rng.choice(ODD_STR)]
+    if k == 1:
+        return ["i", rng.choice([0, 1, -1, 3, 7, 2 ** 70])]
+    if k == 2:
+        return ["none"]
+    if k == 3:
+        return ["bool", rng.random() < 0.5]
+    if k == 4:
+        return ["b", rng.choice([b"name", b"pid", b"", b"\xff"]).hex()]
+    if k == 5:
+        return ["f", rng.choice([[7, 2], [1, 1], [0, 1], [-1, 4], [3, 1]])]
+    if k == 6:
+        return ["nan", rng.randrange(3)]
+    if k == 7:
+        return ["obj", rng.randrange(4), rng.choice(OBJ_KINDS)]
+    if k == 8:
+        return ["s", rng.choice(ODD_STR)]
+    return ["i", rng.randrange(5)]
+
+
+def _odd_elem(rng):
+    if rng.random() < 0.15:
+        return ["t", [_odd_atom(rng) if rng.random() < 0.7 else ["s", rng.choice(MNAMES)] for _ in range(rng.choice([0, 1, 2, 3]))]]
+    return _odd_atom(rng)
+
+
+def _gen_any(rng, n, valid):
+    out = []
+    fixed = [  # the shapes named in the report that extended this generator
+        ["list", [["s", "foo"], ["i", 1]]], ["list", [["s", "foo"], ["none"]]], ["tuple", [["s", "bar"], ["b", b"name".hex()]]],
+        ["set", [["s", "name"], ["s", "pid"], ["s", "nope"], ["f", [7, 2]]]], ["frozenset", [["s", "kill"], ["i", 7]]],
+        ["list", [["t", [["s", "a"]]], ["s", "b"]]], ["list", [["nan", 0], ["nan", 1], ["nan", 0], ["s", "name"]]],
+        ["list", [["obj", 0, "lt_raises"], ["obj", 1, "repr_odd"], ["obj", 2, "hash_like_name"], ["s", "pid"]]],
+        ["tuple", [["i", 1], ["bool", True], ["f", [1, 1]]]], ["list", [["s", "cpu_times"], ["s", "name"], ["i", 3], ["none"], ["s", "x"]]],
+    ]
+    for i in range(n):
+        if i < len(fixed):
+            cont, elems = fixed[i]
+        else:
+            cont = rng.choice(["list", "tuple", "set", "frozenset"])
+            nbad = rng.choice([1, 2, 2, 3, 4, 6])
+            elems = [_odd_elem(rng) for _ in range(nbad)] + [["s", rng.choice(MNAMES + ["pid"] + list(valid))]
+                                                            for _ in range(rng.choice([0, 0, 1, 2, 4]))]
+            if rng.random() < 0.3:
+                elems.append(rng.choice(elems))
+            rng.shuffle(elems)
+        # an element is acceptable iff it is a str in the table; make sure at least one is not
+        if all(e[0] == "s" and e[1] in valid for e in elems):
+            elems.append(["i", 1])
+        via = "process_iter" if rng.random() < 0.25 else "as_dict"
+        pre = [] if via == "process_iter" else rng.choice([[], [], [["enter"]], [["enter"], ["call", "cpu_num"]]])
+        nbad = sum(1 for e in elems if not (e[0] == "s" and e[1] in valid))
+        kinds = sorted({e[0] for e in elems if not (e[0] == "s" and e[1] in valid)})
+        out.append({"kind": "asdict_any", "cls": "asdict-any-%s-%s" % ("1bad" if nbad == 1 else "manybad", "mixed" if len(kinds) > 1 else kinds[0]),
+                    "init": [["A", rng.randint(1, 5)] for _ in SRC], "pre": pre, "valid": list(valid), "container": cont,
+                    "elems": elems, "via": via})
+    # a non-collection through process_iter
+    for nc in ["int", "str", "dict", "bytes"][: max(1, n // 20)]:
+        out.append({"kind": "asdict_any", "cls": "asdict-any-typeerror", "init": [["A", 1]] * 4, "pre": [], "valid": list(valid),
+                    "container": "notcoll", "elems": nc, "via": "process_iter"})
+    return out
 
 
 # ------------------------------------------------------------------ Coq terms
@@ -332,6 +407,33 @@ def _init(case):
     return G.lst([_st(s) for s in case["init"]])
 
 
+def _atom(e):
+    k = e[0]
+    if k == "s":
+        return "(EStr %s)" % G.by(e[1])
+    if k == "i":
+        return "(EInt %s)" % G.z(e[1])
+    if k == "none":
+        return "ENone"
+    if k == "bool":
+        return "(EBool %s)" % G.bo(e[1])
+    if k == "b":
+        return "(EBytes %s)" % G.by(bytes.fromhex(e[1]))
+    if k == "f":
+        return "(EFloat %s %s)" % (G.z(e[1][0]), G.z(e[1][1]))
+    if k == "nan":
+        return "(ENaN %s)" % G.z(e[1])
+    if k == "obj":
+        return "(EObj %s)" % G.z(e[1])
+    raise ValueError(k)
+
+
+def _elem(e):
+    if e[0] == "t":
+        return "(NTuple %s)" % G.lst([_atom(x) for x in e[1]])
+    return "(NA %s)" % _atom(e)
+
+
 def coq_term(case):
     k = case["kind"]
     if k == "hist":
@@ -339,6 +441,13 @@ def coq_term(case):
     if k == "sched":
         progs = G.lst([G.lst([_op(o) for o in p]) for p in case["progs"]])
         return "run_threads %s %s %s [%s]%%nat" % (VARIANT, _init(case), progs, ";".join(str(t) for t in case["sched"]))
+    if k == "asdict_any":
+        valid = case["valid"]
+        tbl = ["(%s, %s)" % (G.by(n), "(CM %s)" % METHODS[n][0] if n in METHODS else "CPid" if n == "pid" else "(CStub (Val 0%nat))")
+               for n in valid]
+        attrs = "PNotColl" if case["container"] == "notcoll" else "(PColl %s)" % G.lst([_elem(e) for e in case["elems"]])
+        return "run_asdict_any %s %s %s %s %s" % (_init(case), G.lst([_op(o) for o in case["pre"]]),
+                                                  G.lst([G.by(n) for n in valid]), G.lst(tbl), attrs)
     if k == "asdict":
         valid = case["valid"]
         tbl = []
@@ -373,7 +482,7 @@ def coq_struct(case, raw):
         return {"model": {"threads": threads, "ptrs": raw[2]}, "done": raw[1],
                 "allowed": [[r[2] for r in th] for th in raw[0]],
                 "model_ok": all(r[3] for th in raw[0] for r in th), "spec": None}
-    if k == "asdict":
+    if k in ("asdict", "asdict_any"):
         return {"model": [raw[0], raw[1], raw[2]], "spec": raw[3]}
     raise ValueError(k)
 
@@ -433,7 +542,7 @@ def judge(case, coq, impl):
         if impl != coq["model"]:
             return Verdict("corr", "impl != model")
         return Verdict("ok")
-    if k == "asdict":
+    if k in ("asdict", "asdict_any"):
         spec = coq["spec"]
         if spec is not None:
             if impl[0] != spec[0]:
@@ -658,6 +767,65 @@ def _stub(psutil, spec):
     return f
 
 
+class _LtRaises:
+    def __lt__(self, other):
+        raise TypeError("no ordering")
+    __gt__ = __le__ = __ge__ = __lt__
+
+
+class _ReprOdd:
+    def __repr__(self):
+        return "<{odd} %s \u00e9 'x', \"y\">"
+
+
+class _HashZero:
+    def __hash__(self):
+        return 0
+
+
+class _HashLikeName:
+    def __hash__(self):
+        return hash("name")
+
+
+class _StrSubclassOdd(str):
+    """A str subclass whose text is not a valid name and whose repr is unusual."""
+
+    def __repr__(self):
+        return "StrSub()"
+
+
+def _build_elems(elems):
+    """Python values for the encoded elements; equal ids give the very same object (NaN, instances)."""
+    memo = {}
+
+    def atom(e):
+        k = e[0]
+        if k == "s":
+            return e[1]
+        if k == "i":
+            return e[1]
+        if k == "none":
+            return None
+        if k == "bool":
+            return bool(e[1])
+        if k == "b":
+            return bytes.fromhex(e[1])
+        if k == "f":
+            return e[1][0] / e[1][1]
+        if k == "nan":
+            return memo.setdefault(("nan", e[1]), float("nan") * 1)
+        if k == "obj":
+            key = ("obj", e[1])
+            if key not in memo:
+                memo[key] = {"plain": object, "lt_raises": _LtRaises, "repr_odd": _ReprOdd, "hash_zero": _HashZero,
+                             "hash_like_name": _HashLikeName,
+                             "str_subclass_odd": lambda: _StrSubclassOdd("not-a-name-%d" % e[1])}[e[2]]()
+            return memo[key]
+        raise ValueError(k)
+    return [tuple(atom(x) for x in e[1]) if e[0] == "t" else atom(e) for e in elems]
+
+
 def impl_run(case, coq, env):
     import psutil
     k = case["kind"]
@@ -685,6 +853,39 @@ def impl_run(case, coq, env):
             if ctl.errors:
                 raise RuntimeError("harness thread failed: %r" % (ctl.errors,))
             return {"threads": [r.res for r in runners], "ptrs": tgt.ptrs(), **({"unfinished": unfinished} if unfinished else {})}
+        if k == "asdict_any":
+            p = tgt.proc
+            if list(psutil._as_dict_attrnames) != case["valid"]:
+                return T("Skip", "iteration order of _as_dict_attrnames differs from the one the case was built with")
+            r = Runner(tgt)
+            for o in case["pre"]:
+                r.step(o)
+            if case["container"] == "notcoll":
+                arg = {"int": 5, "str": "name", "dict": {"name": 1}, "bytes": b"name"}[case["elems"]]
+            else:
+                arg = build_attrs(case["container"], _build_elems(case["elems"]))
+            tgt.take_counts()
+            try:
+                if case["via"] == "process_iter":
+                    psutil.process_iter.cache_clear()
+                    g = psutil.process_iter(attrs=arg)
+                    try:
+                        first = next(g)
+                    finally:
+                        g.close()
+                    res = Val([[B(nm), 0] for nm in sorted(first.info)])
+                else:
+                    d = p.as_dict(attrs=arg)
+                    res = Val([[B(nm), 0] for nm in d])
+            except BaseException as e:  # noqa
+                if isinstance(e, (KeyboardInterrupt, SystemExit)):
+                    raise
+                res = Exc(exc_name(e))
+            cnt = tgt.take_counts()
+            out = [res, cnt, tgt.ptrs()]
+            while r.stack:
+                r.stack.pop().__exit__(None, None, None)
+            return out
         if k == "asdict":
             p = tgt.proc
             valid = list(psutil._as_dict_attrnames)
@@ -726,7 +927,7 @@ def impl_run(case, coq, env):
 
 
 MANIFEST = {
-    "text": "Theorems (Coq 8.16, 20, all closed under the global context; coq/Properties/C16.v). One thread, every history of "
+    "text": "Theorems (Coq 8.16, 22, all closed under the global context; coq/Properties/C16.v). One thread, every history of "
             "enter/exit/nested enter/exception in the body/call/source change (new content, denied, process gone): the model "
             "of memoize_when_activated + oneshot() + the Linux memoized readers produces, call by call, the answers and per-call "
             "read counts of a ghost machine written from the property text (first successful read in the block is kept, "
@@ -739,7 +940,9 @@ MANIFEST = {
             "memory_full_info()); once no block is open both _cache attributes are gone and calls read current data; nested "
             "enter+exit changes nothing but the lock count; as_dict = TypeError/ValueError with the state untouched, else one "
             "block around the requested calls with ad_value for AccessDenied/ZombieProcess, NoSuchProcess propagating, exactly "
-            "the requested keys (checked against the generated table of _as_dict_attrnames). Threads, every interleaving at "
+            "the requested keys (checked against the generated table of _as_dict_attrnames); attrs elements of any hashable type: "
+            "a collection with at least one element that is not an acceptable name is rejected with ValueError, state untouched, "
+            "for all element types and counts. Threads, every interleaving at "
             "source-line granularity, any number of threads and programs, no bound on length: no AttributeError/KeyError of "
             "the cache plumbing reaches a caller (refuted for the pre-issue-1948 wrapper); every value held by any cache dict "
             "was read after that dict was created (refuted for the wrapper before commit 7b727b3, witness schedule replayed on "
